@@ -585,6 +585,8 @@ pub struct Estimate {
     pub capped: bool,
     pub plain_bytes: u64,
     pub header_ok: bool,
+    /// largest declared tile length seen among the visited entries
+    pub max_len: u64,
 }
 
 pub const BUDGET_TILES: u64 = 2_000_000;
@@ -637,6 +639,7 @@ pub fn estimate(file: &[u8]) -> Estimate {
         let e = top.entries[top.next];
         top.next += 1;
         if e.run > 0 {
+            est.max_len = est.max_len.max(u64::from(e.len));
             est.tiles = est.tiles.saturating_add(u64::from(e.run));
             if est.tiles > BUDGET_TILES {
                 est.capped = true;
